@@ -24,7 +24,8 @@ from harness import core, simsub, sbmlgen, c09
 from harness.core import coq_list, coq_string, coqZ, coq_bool, coq_option
 
 THEOREMS = ['C11_consistent_after_any_history', 'C11_state_is_config', 'C11_history_independent',
-            'C11_reported_is_applied', 'C11_simulation_of_config', 'C11_observed_names', 'C11_copy']
+            'C11_reported_is_applied', 'C11_simulation_of_config', 'C11_observed_names', 'C11_copy',
+            'C11_fresh_with_net_configuration', 'C11_history_equals_fresh']
 HEADER = '''From Coq Require Import ZArith List Bool String.
 From Chi Require Import Model.Mechanistic Model.Config Tie.C08Tie Tie.C09Tie Tie.C11Tie.
 Import ListNotations.
